@@ -63,4 +63,4 @@ package store
 // C13: subscriptions exist only for topics that were created, and topics are created under well-formed names only
 // (assumed of the store).
 //@ func (t TopicsPersistenceInterface) GetSubs(topic string, opts *types.QueryOpt) (subs []types.Subscription, err error)
-//@   ensures [C13] [assumed] len(subs) > 0 ==> len(topic) >= 3 && (hasPrefix(topic, "usr") || hasPrefix(topic, "p2p") || hasPrefix(topic, "grp") || hasPrefix(topic, "chn") || hasPrefix(topic, "fnd") || hasPrefix(topic, "sys"))
+//@   ensures [C13,assumed] len(subs) > 0 ==> len(topic) >= 3 && (hasPrefix(topic, "usr") || hasPrefix(topic, "p2p") || hasPrefix(topic, "grp") || hasPrefix(topic, "chn") || hasPrefix(topic, "fnd") || hasPrefix(topic, "sys"))
